@@ -207,7 +207,13 @@ func oracles(in []byte, pol0 byte, O func(what, exp, got string)) string {
 		if re.completed("TSRTS") && len(re.outs()) == 2 {
 			got = same(bytes.Equal(lastOut(re), out1))
 		}
-		O("idempotent-reparse", "same", got)
+		if got != "same" && probeQuirk(in) && len(re.steps) == 3 && re.steps[2].err != nil {
+			// known finding F-C12-probe-start: the saved image does not parse any more because a "_FVH" below the
+			// first probe position of the old BIOS region is now probed (FindFirmwareVolumeOffset starts at 32)
+			O("reparse-after-tighten-probe-quirk", "same", got)
+		} else {
+			O("idempotent-reparse", "same", got)
+		}
 	}
 	if !d.ok || !d.sane {
 		if terr != nil {
@@ -333,6 +339,11 @@ func oracles(in []byte, pol0 byte, O func(what, exp, got string)) string {
 	nb, ob := od.regs[0][0], biosBase
 	okFreed := nb <= ob && od.regs[0][1] == biosLimit && ob*blk <= n && allEq(out1[nb*blk:ob*blk], pol)
 	O("freed-blocks-erased-at-bios-start", "true", fmt.Sprint(okFreed))
+	// the recorded element offsets, directly and through a visitor that consumes them
+	if got, ok := elementOffsets(in); ok {
+		O("bios-element-offsets-consistent", "consistent", got)
+	}
+	extractOracles(in, O)
 	if nb == ob {
 		return "ok:nothing-to-free"
 	}
